@@ -6,7 +6,8 @@ State = the four data members:  `chunks_` (vector of shared pointers to `std::ar
 (`(N > 0) ? N : 1` of the template argument, see `chunkSize`).  Iterators are plain absolute positions
 (`position_`), exactly as in the code.
 
-Every function mirrors one member function statement by statement (after fixes/C11_arraylist_purge.patch).
+Every function mirrors one member function statement by statement (after fixes/C11_arraylist_purge.patch and
+fixes/C11_arraylist_copy.patch).
 Accesses outside the allocated chunks are undefined behaviour in C++; the model is totalised by making such
 writes no-ops and such reads `none` — the refinement theorems (Props/C11.lean) are stated under the
 invariant `Inv`, where all accesses are inside, and they would be false if a no-op write ever happened.
@@ -136,5 +137,57 @@ def specStep (l : List α) : Op α → List α
   | .set k x => l.set k x
 
 def specRun (l : List α) (ops : List (Op α)) : List α := ops.foldl specStep l
+
+/-! ### copying, and histories over two lists
+
+`ArrayList(const ArrayList&)` (fixes/C11_arraylist_copy.patch): `for(chunk : other.chunks_) if(chunk) push_back(
+make_shared<array>(*chunk)) else emplace_back()`, the three counters copied.  The model has value semantics, so "the
+copy shares no storage with the original" is true of the model by construction; that the real class behaves like this
+is decided by the harness (two instances, each with its own `std::deque` shadow). -/
+
+def copy (s : State α) : State α :=
+  { chunks := s.chunks.map (fun c => c.map (fun a => a)),   -- allocated: make_shared<array>(*chunk); null: emplace_back()
+    capacity := s.capacity, size := s.size, start := s.start }
+
+/-- `operator=(other)`; `other = none` stands for `&other == this` -/
+def assign (s : State α) (other : Option (State α)) : State α :=
+  match other with
+  | none => s                  -- if(this != &other) { … }
+  | some o => copy o           -- ArrayList copy(other); swap the members in
+
+inductive Side where
+  | a | b
+deriving Repr, DecidableEq
+
+structure World (α : Type) where
+  a : State α
+  b : State α
+
+/-- operations on two lists `a`, `b` -/
+inductive Op2 (α : Type) where
+  | on (t : Side) (o : Op α)   -- an operation on one of the lists
+  | copyFrom (t : Side)        -- `t = other` (or `t` constructed anew as a copy of the other list)
+  | selfAssign (t : Side)      -- `t = t`
+deriving Repr
+
+def step2 (N : Nat) (d : α) (w : World α) : Op2 α → World α
+  | .on .a o => { w with a := step N d w.a o }
+  | .on .b o => { w with b := step N d w.b o }
+  | .copyFrom .a => { w with a := assign w.a (some w.b) }
+  | .copyFrom .b => { w with b := assign w.b (some w.a) }
+  | .selfAssign .a => { w with a := assign w.a none }
+  | .selfAssign .b => { w with b := assign w.b none }
+
+def run2 (N : Nat) (d : α) (w : World α) (ops : List (Op2 α)) : World α := ops.foldl (step2 N d) w
+
+/-- the same history on two plain sequences -/
+def specStep2 (w : List α × List α) : Op2 α → List α × List α
+  | .on .a o => (specStep w.1 o, w.2)
+  | .on .b o => (w.1, specStep w.2 o)
+  | .copyFrom .a => (w.2, w.2)
+  | .copyFrom .b => (w.1, w.1)
+  | .selfAssign _ => w
+
+def specRun2 (w : List α × List α) (ops : List (Op2 α)) : List α × List α := ops.foldl specStep2 w
 
 end DV.C11.AL
